@@ -993,7 +993,7 @@ class GitBranch(ForeignBranch):
             return None
 
         try:
-            ref = cs.get((b"branch", remote), b"merge")
+            ref = cs.get((b"branch", self.name.encode("utf-8")), b"merge")
         except KeyError:
             ref = b"HEAD"
 
@@ -1020,14 +1020,19 @@ class GitBranch(ForeignBranch):
             (b"remote", remote), b"fetch", b"+refs/heads/*:refs/remotes/%s/*" % remote
         )
         if self.name:
+            # Segment parameter values are still URL-quoted at this point.
             if branch:
                 cs.set(
                     (b"branch", self.name.encode()),
                     b"merge",
-                    branch_name_to_ref(branch),
+                    branch_name_to_ref(urlutils.unescape(branch)),
                 )
             elif ref:
-                cs.set((b"branch", self.name.encode()), b"merge", ref)
+                cs.set(
+                    (b"branch", self.name.encode()),
+                    b"merge",
+                    urlutils.unquote_to_bytes(ref),
+                )
             else:
                 # TODO(jelmer): Maybe unset rather than setting to HEAD?
                 cs.set((b"branch", self.name.encode()), b"merge", b"HEAD")
